@@ -35,7 +35,7 @@
 static int             srv_fd   = -1;
 static unsigned short  srv_port = 0;
 static pthread_t       srv_thr;
-static volatile int    srv_stop = 0;
+static int    srv_stop = 0;
 
 static long now_ms(void)
 {
@@ -48,7 +48,7 @@ static void *server_main(void *arg)
 {
   unsigned char buf[1500];
   (void)arg;
-  while (!srv_stop) {
+  while (!__atomic_load_n(&srv_stop, __ATOMIC_ACQUIRE)) {
     struct sockaddr_in from;
     socklen_t          fl = sizeof(from);
     struct pollfd      p;
@@ -297,7 +297,7 @@ int main(int argc, char **argv)
   cares_verif_trace_fn = trace_cb;
 #endif
   rc = drv_main(argc, argv, run_case);
-  srv_stop = 1;
+  __atomic_store_n(&srv_stop, 1, __ATOMIC_RELEASE);
   pthread_join(srv_thr, NULL);
   close(srv_fd);
   ares_library_cleanup();
